@@ -127,4 +127,10 @@ def suite_padded(ctx):
     return s
 
 
-SUITES = [suite_padded]
+def suite_callw(ctx):
+    """whole client calls of every service family against the model's callWith (udsdrv callw): the correspondence the call-level theorems rest on"""
+    from .. import callw
+    return callw.suite_callw(ctx, 'C11')
+
+
+SUITES = [suite_padded, suite_callw]
